@@ -261,3 +261,84 @@ Section Link.
     - now apply conforms_skeleton.
   Qed.
 End Link.
+
+(* ------------------------------------------------------------------------------------------ *)
+(* the skeletonised environment is the environment of the skeletonised files                  *)
+(* ------------------------------------------------------------------------------------------ *)
+Lemma kw_id_skeleton ks : kw_id (flat_map skeleton_kw ks) = kw_id ks.
+Proof.
+  induction ks as [|kw r IH]; [reflexivity|]. cbn [flat_map].
+  destruct kw; cbn [skeleton_kw app kw_id]; auto.
+Qed.
+
+Lemma kw_defs_skeleton ks :
+  kw_defs (flat_map skeleton_kw ks) = map (fun p => (fst p, skeleton (snd p))) (kw_defs ks).
+Proof.
+  induction ks as [|kw r IH]; [reflexivity|]. cbn [flat_map].
+  destruct kw; cbn [skeleton_kw app kw_defs]; auto. rewrite map_app, IH. reflexivity.
+Qed.
+
+Lemma env_of_file_skeleton s : env_of_file (skeleton s) = skeleton_env (env_of_file s).
+Proof.
+  destruct s as [b|ks]; [reflexivity|]. cbn [skeleton env_of_file]. rewrite kw_id_skeleton.
+  destruct (kw_id ks) as [i|]; [|reflexivity]. unfold skeleton_env. cbn [map fst snd skeleton].
+  f_equal. rewrite kw_defs_skeleton, !map_map. apply map_ext. intros [n d]. reflexivity.
+Qed.
+
+Theorem env_of_files_skeleton files :
+  env_of_files (map (fun f => (fst f, skeleton (snd f))) files) = skeleton_env (env_of_files files).
+Proof.
+  unfold env_of_files. induction files as [|[p s] r IH]; [reflexivity|].
+  cbn [map flat_map fst snd]. rewrite IH, env_of_file_skeleton. unfold skeleton_env. rewrite map_app. reflexivity.
+Qed.
+
+(* ------------------------------------------------------------------------------------------ *)
+(* the skeleton has no value-level keyword left, and a schema without them is its own skeleton *)
+(* ------------------------------------------------------------------------------------------ *)
+Lemma forallb_app' {A} (f : A -> bool) a b : forallb f a = true -> forallb f b = true -> forallb f (a ++ b) = true.
+Proof. intros Ha Hb. rewrite forallb_app, Ha, Hb. reflexivity. Qed.
+
+Fixpoint skeleton_structural (s : schema) : structural (skeleton s) = true
+with skeleton_kw_structural (k : keyword) : forallb structural_kw (skeleton_kw k) = true.
+Proof.
+  - destruct s as [b|ks]; [reflexivity|]. cbn [skeleton structural].
+    induction ks as [|k r IH]; [reflexivity|]. cbn [flat_map]. apply forallb_app'; [|exact IH].
+    apply skeleton_kw_structural.
+  - destruct k; cbn [skeleton_kw forallb structural_kw erased negb andb]; try reflexivity.
+    + rewrite andb_true_r. induction ps as [|[n s] r IH]; [reflexivity|].
+      cbn [map forallb fst snd]. rewrite (skeleton_structural s). exact IH.
+    + rewrite andb_true_r. induction ps as [|[n s] r IH]; [reflexivity|].
+      cbn [map forallb fst snd]. rewrite (skeleton_structural s). exact IH.
+    + rewrite (skeleton_structural s). reflexivity.
+    + rewrite (skeleton_structural s). reflexivity.
+    + rewrite andb_true_r. induction l as [|s r IH]; [reflexivity|].
+      cbn [map forallb]. rewrite (skeleton_structural s). exact IH.
+    + rewrite andb_true_r. induction ds as [|[n s] r IH]; [reflexivity|].
+      cbn [map forallb fst snd]. rewrite (skeleton_structural s). exact IH.
+Qed.
+
+Fixpoint structural_skeleton (s : schema) : structural s = true -> skeleton s = s
+with structural_kw_skeleton (k : keyword) : structural_kw k = true -> skeleton_kw k = [k].
+Proof.
+  - destruct s as [b|ks]; [reflexivity|]. cbn [skeleton structural]. intros H. f_equal.
+    induction ks as [|k r IH]; [reflexivity|]. cbn [forallb] in H. apply andb_true_iff in H.
+    destruct H as [Hk Hr]. cbn [flat_map]. rewrite (structural_kw_skeleton k Hk), (IH Hr). reflexivity.
+  - destruct k; cbn [skeleton_kw structural_kw erased negb andb]; try reflexivity; try discriminate; intros H.
+    + do 2 f_equal. induction ps as [|[n s] r IH]; [reflexivity|].
+      cbn [forallb snd] in H. apply andb_true_iff in H. destruct H as [Hs Hr].
+      cbn [map fst snd]. rewrite (structural_skeleton s Hs), (IH Hr). reflexivity.
+    + do 2 f_equal. induction ps as [|[n s] r IH]; [reflexivity|].
+      cbn [forallb snd] in H. apply andb_true_iff in H. destruct H as [Hs Hr].
+      cbn [map fst snd]. rewrite (structural_skeleton s Hs), (IH Hr). reflexivity.
+    + rewrite (structural_skeleton s H). reflexivity.
+    + rewrite (structural_skeleton s H). reflexivity.
+    + do 2 f_equal. induction l as [|s r IH]; [reflexivity|].
+      cbn [forallb] in H. apply andb_true_iff in H. destruct H as [Hs Hr].
+      cbn [map]. rewrite (structural_skeleton s Hs), (IH Hr). reflexivity.
+    + do 2 f_equal. induction ds as [|[n s] r IH]; [reflexivity|].
+      cbn [forallb snd] in H. apply andb_true_iff in H. destruct H as [Hs Hr].
+      cbn [map fst snd]. rewrite (structural_skeleton s Hs), (IH Hr). reflexivity.
+Qed.
+
+Theorem skeleton_idempotent s : skeleton (skeleton s) = skeleton s.
+Proof. apply structural_skeleton, skeleton_structural. Qed.
